@@ -38,6 +38,30 @@ def formatByIndex (i : Nat) (fmts : List Nat) : Out Bool :=
       else if f = Generated.Wire.pgBindFormatBinary then .ok true
       else .err
 
+/-- compiled form of `formatByIndex` (no `fmts.length` per call); the theorems are about `formatByIndex`, the equality
+below is kernel-checked -/
+def formatByIndexFast (i : Nat) (fmts : List Nat) : Out Bool :=
+  let code (f : Nat) : Out Bool :=
+    if f = Generated.Wire.pgBindFormatText then .ok false
+    else if f = Generated.Wire.pgBindFormatBinary then .ok true
+    else .err
+  match fmts with
+  | [] => .ok false
+  | [f] => code f
+  | _ :: _ :: _ =>
+    match fmts[i]? with
+    | none => .err
+    | some f => code f
+
+@[csimp] theorem formatByIndex_eq_fast : @formatByIndex = @formatByIndexFast := by
+  funext i fmts
+  match fmts with
+  | [] => rfl
+  | [f] => simp [formatByIndex, formatByIndexFast]
+  | a :: b :: r =>
+    simp only [formatByIndex, formatByIndexFast, List.length_cons]
+    rw [if_neg (by omega)]
+
 /-- one iteration of the loop in `parseColumns`: `ReadLength`, format lookup, `readData` -/
 def readCol (i : Nat) (fmts : List Nat) (s : Bytes) : Out (Col × Bytes) := do
   let (lb, rest) ← readN s 4
